@@ -424,8 +424,16 @@ def build(repo=None):
                         if isinstance(v, Fn) and isinstance(v.node, ast.GeneratorExp):
                             g = v.node
                             gen = g.generators[0]
-                            shape_ok = (ast.unparse(g.elt) == gen.target.id and isinstance(gen.iter, ast.Name) and v.closure.get(gen.iter.id) is D2 and len(gen.ifs) == 1
-                                        and ast.unparse(gen.ifs[0]).replace(" ", "") == f"{gen.target.id}inarray_type.dtypes")
+                            shape_ok = ast.unparse(g.elt) == gen.target.id and isinstance(gen.iter, ast.Name) and v.closure.get(gen.iter.id) is D2 and len(gen.ifs) == 1
+                            c0 = gen.ifs[0] if gen.ifs else None
+                            if shape_ok and isinstance(c0, ast.Compare) and len(c0.ops) == 1 and isinstance(c0.ops[0], ast.In) and isinstance(c0.left, ast.Name) and c0.left.id == gen.target.id:
+                                # `x in <the inner category's dtypes>`, however that collection is spelled (array_type.dtypes, a parameter of a helper ...)
+                                s_c = s.clone()
+                                s_c.env = dict(v.closure or s.env)
+                                rs_ = e.ev(c0.comparators[0], s_c)
+                                shape_ok = len(rs_) == 1 and rs_[0][1] is D1
+                            else:
+                                shape_ok = False
                             e.oblige(s, "C15:nesting:dtypes-are-the-outer-names-that-also-occur-in-the-inner-category(in-outer-order)", z3.BoolVal(shape_ok))
                             return [(s, inter)]
                         return None
@@ -509,7 +517,7 @@ def build(repo=None):
         names = Opaque("dtype-names")
 
         def m_any(e, s, g, node):
-            ok = isinstance(g, Fn) and isinstance(g.node, ast.GeneratorExp) and ast.unparse(g.node.elt).replace(" ", "") == f"{g.node.generators[0].target.id}.startswith(dtype)" and g.closure.get(getattr(g.node.generators[0].iter, "id", "")) is names and not g.node.generators[0].ifs
+            ok = isinstance(g, Fn) and isinstance(g.node, ast.GeneratorExp) and ast.unparse(g.node.elt).replace(" ", "") == f"{g.node.generators[0].target.id}.startswith({cs.args.args[0].arg})" and g.closure.get(getattr(g.node.generators[0].iter, "id", "")) is names and not g.node.generators[0].ifs
             e.oblige(s, "C15:scalar:the-category-test-is-'some-dtype-name-starts-with-the-scalar-prefix'", z3.BoolVal(bool(ok)))
             return [(s, Z("bool", SomePrefix))]
 
@@ -549,20 +557,41 @@ def build(repo=None):
             else:
                 eng.oblige(s1, f"C15:scalar:returns-a-bool[{o.kind}]", z3.BoolVal(False))
         collect(st.obl, ["C15"])
-    # the scalar ladder returns the Python type itself / _not_made
-    ladder_ok = True
-    seen_types = set()
-    for s in fn.body:
-        if isinstance(s, ast.If) and ast.unparse(s.test).startswith("array_type is bool"):
-            cur = s
-            while cur is not None:
-                t = ast.unparse(cur.test)
-                ok = (len(cur.body) == 1 and isinstance(cur.body[0], ast.If) and "_check_scalar(" in ast.unparse(cur.body[0].test) and ast.unparse(cur.body[0].body[0]) == "return array_type" and ast.unparse(cur.body[0].orelse[0]) == "return _not_made")
-                ladder_ok = ladder_ok and ok
-                seen_types.add(t)
-                cur = cur.orelse[0] if cur.orelse and isinstance(cur.orelse[0], ast.If) else None
-    want_tests = {"array_type is bool", "array_type is int", "array_type is float", "array_type is complex"}
-    obligations.append({"clause": "C15:scalar:bool/int/float/complex-survive-as-the-Python-type-itself-or-are-not-made", "kind": "vc", "pc": [], "goal": z3.BoolVal(ladder_ok and want_tests <= seen_types), "path": [], "meta": {}, "serves": ["C15"]})
+    # the scalar ladder returns the Python type itself / _not_made: executed for each scalar type, _check_scalar by its contract above
+    ladders = [s_ for s_ in fn.body if isinstance(s_, ast.If) and ast.unparse(s_.test).replace(" ", "") == "array_typeisbool"]
+    if len(ladders) != 1:
+        raise Unsupported("_make_array_cached: scalar ladder (`if array_type is bool: ...`) not found")
+    PREFIX_OF = {"bool": "bool", "int": "int", "float": "float", "complex": "complex", "np.bool_": "bool", "np.generic": "", "np.number": ""}
+    consts = {k_: Opaque("sentinel:type:" + k_, z3.Const("type_" + k_.replace(".", "_"), U)) for k_ in PREFIX_OF}
+    not_made_v = Opaque("sentinel:_not_made", z3.Const("not_made", U))
+    for tname in list(PREFIX_OF) + ["some-other-type"]:
+        eng = AC.arrays_engine(mod)
+        for k_ in ("bool", "int", "float", "complex"):
+            eng.globals[k_] = consts[k_]
+        eng.globals["np"] = Opaque("global:np", attrs={"bool_": consts["np.bool_"], "generic": consts["np.generic"], "number": consts["np.number"]})
+        eng.globals["_not_made"] = not_made_v
+        Survives = z3.Bool("check_scalar_result")
+        seen_cs = []
+
+        def m_cs(e, s_, a, kw, nd, _seen=seen_cs):
+            _seen.append(a)
+            return [(s_, Z("bool", Survives))]
+
+        eng.globals["_check_scalar"] = Fn("_check_scalar", model=m_cs)
+        st = State()
+        at_v = consts.get(tname) or Opaque("sentinel:type:other", z3.Const("type_other", U))
+        dt_v, dm_v = Opaque("dtypes"), Opaque("dims")
+        st.env = {"array_type": at_v, "dtypes": dt_v, "dims": dm_v}
+        st.pc.append(z3.Distinct(*[c.t for c in consts.values()], z3.Const("type_other", U), not_made_v.t))
+        for s1, o in eng.run([ladders[0]], st):
+            paths += 1
+            if tname == "some-other-type":
+                eng.oblige(s1, "C15:scalar:only-the-scalar-types-take-the-scalar-path", z3.BoolVal(o.kind == "normal" and not seen_cs))
+                continue
+            called = len(seen_cs) >= 1 and len(seen_cs[-1]) == 3 and isinstance(seen_cs[-1][0], Z) and z3.is_string_value(z3.simplify(seen_cs[-1][0].t)) and z3.simplify(seen_cs[-1][0].t).as_string() == PREFIX_OF[tname] and seen_cs[-1][1] is dt_v and seen_cs[-1][2] is dm_v
+            good = o.kind == "return" and called and (o.val is at_v or o.val is not_made_v)
+            eng.oblige(s1, "C15:scalar:bool/int/float/complex-survive-as-the-Python-type-itself-or-are-not-made", z3.And(z3.BoolVal(bool(good)), Survives == z3.BoolVal(o.val is at_v)) if good else z3.BoolVal(False), scalar=z3.StringVal(tname))
+        collect(st.obl, ["C15"])
     # lazy aliases in __init__.py
     im = Module("jaxtyping/__init__.py", repo)
     ga = [n for n in ast.walk(im.tree) if isinstance(n, ast.FunctionDef) and n.name == "__getattr__"]
